@@ -14,7 +14,7 @@
      gmp++_int_div.C        (Integer::divmod(q,r,a,b))
      gmp++_int_pow.C        (powmod(Res,n,int64 e,m))
      qfield.h               (QField<Rational>::neg/negin/inv/invin, by-value forms)
-     givrataddsub.C / givratmuldiv.C  (Rational::operator+= -= *= /=)
+     givrataddsub.C         (Rational::operator+= -=;  *= and /= of givratmuldiv.C, both Reduce and NoReduce mode: ModelRat.v)
    The primitive steps (one RecInt free function, one mpz_* call) are atomic exact operations:
    they read all their operands, then write their destination.  That the real primitives behave like
    this under aliasing is what the alias harness checks on every run (harness/c15_*.C). *)
